@@ -148,6 +148,16 @@ func fixedScenarios() []fixed {
 		sc.NoisePct = 100
 		sc.End = "app-close"
 	})
+	// callsigns with SSIDs 10..15, ending in digits, without SSID, and stations that differ in the SSID only
+	for k := 1; k < len(callSets); k++ {
+		mk(fmt.Sprintf("calls-%d-dial", k), func(sc *scenario) { sc.Calls = k; sc.Seg = "whole"; sc.End = "app-close" })
+		mk(fmt.Sprintf("calls-%d-accept-foreign", k), func(sc *scenario) {
+			sc.Calls, sc.Mode = k, "accept"
+			sc.Bursts = []burst{{Frames: 30, MinSz: 1, MaxSz: 200, ForeignPct: 50}}
+			sc.NoisePct = 100
+		})
+		mk(fmt.Sprintf("calls-%d-dual", k), func(sc *scenario) { sc.Calls = k; sc.Dual, sc.DualPct = true, 50 })
+	}
 	// connection set-up variants
 	mk("dial-1-digi", func(sc *scenario) { sc.Digis = 1 })
 	mk("dial-early-data", func(sc *scenario) { sc.Seg = "whole"; sc.EarlyData = 3 })
@@ -309,6 +319,10 @@ func randomStream(seed int64, i int) scenario {
 		sc.Seg = vrt.Pick(r, []string{"hostile", "hostile", "hostile", "hostile", "hostile", "hostile", "hostile", "bytes", "whole", "whole"})
 	}
 	sc.Port = vrt.Pick(r, []int{0, 1, 2, 7})
+	sc.Calls = i % (2 * len(callSets)) // every other scenario uses the textbook callsigns, the others rotate through the sets
+	if sc.Calls >= len(callSets) {
+		sc.Calls = 0
+	}
 	if r.Intn(100) < 35 {
 		sc.Mode = "accept"
 		sc.OddAccept = r.Intn(100) < 30
@@ -434,7 +448,8 @@ func run(c vrt.Case) vrt.Obs {
 	vrt.Params(c, &sc)
 	var o vrt.Obs
 	o.Evals = 1
-	e := &env{sc: sc, o: &o, rng: vrt.Rand(sc.Seed, "scenario"), fatal: make(chan struct{})}
+	e := &env{sc: sc, cs: sc.callSet(), o: &o, rng: vrt.Rand(sc.Seed, "scenario"), fatal: make(chan struct{})}
+	o.Count(fmt.Sprintf("scenarios_callsigns_%s_%s", e.cs.myCall, e.cs.remoteCall), 1)
 	if sc.ReverseEnv {
 		// the package's documented option for TNCs that want the connection initiator's order in 'Y' queries;
 		// process-wide, set for this scenario only (a worker runs one scenario at a time)
